@@ -200,6 +200,8 @@ type Root struct {
 	Arr     [3]string
 	NilSl   []string
 	PSl     *[]string
+	PPSl    **[]string // slicing and indexing reach through any number of pointers
+	PPStr   **string
 	Cap     []string // len 2, cap 4
 
 	Str string
@@ -277,6 +279,12 @@ func (g *Gen) Root() *Root {
 	r.Arr = [3]string{g.Tok(), g.Tok(), g.Tok()}
 	ps := []string{g.Tok(), g.Tok()}
 	r.PSl = &ps
+	pps := []string{g.Tok(), g.Tok()}
+	ppsp := &pps
+	r.PPSl = &ppsp
+	pstr := "xyz"
+	pstrp := &pstr
+	r.PPStr = &pstrp
 	backing := []string{g.Tok(), g.Tok(), "HIDDEN-" + g.Tok(), "HIDDEN-" + g.Tok()}
 	r.Cap = backing[:2]
 	r.Str = "abc"
